@@ -50,6 +50,7 @@ type frame struct {
 	panicking *goPanic
 	recovered bool
 	callSite  string
+	skipPhis  bool
 }
 
 // Exec is the state of one path execution.
@@ -92,6 +93,7 @@ type Exec struct {
 	blocks         map[string]*cblock
 	blockSeq       int
 	compressPolicy int
+	crcTable       *Cell
 }
 
 type NdInput struct {
@@ -189,6 +191,13 @@ func (x *Exec) branch(c *Term) bool {
 		return false
 	}
 	x.res.SymBranches++
+	if dbg := os.Getenv("GOSYM_DEBUG_BRANCH"); dbg != "" && x.curInstr != nil && strings.Contains(x.curInstr.Parent().String(), dbg) && !x.replaying() {
+		str := x.ctx.Script([]*Term{c}, "")
+		if len(str) > 800000 {
+			str = str[:4000] + "\n.....\n" + str[len(str)-4000:]
+		}
+		fmt.Fprintf(os.Stderr, "BRANCH at %s:\n%s\n", x.site(), str)
+	}
 	taken := x.choose(func() []int {
 		if x.merging > 0 {
 			return []int{0, 1}
@@ -494,7 +503,15 @@ func (x *Exec) run(fr *frame) {
 		// phis
 		instrs := fr.block.Instrs
 		i := 0
-		if fr.prev != nil {
+		if fr.skipPhis {
+			fr.skipPhis = false
+			for i < len(instrs) {
+				if _, ok := instrs[i].(*ssa.Phi); !ok {
+					break
+				}
+				i++
+			}
+		} else if fr.prev != nil {
 			// evaluate phis simultaneously
 			var idx int
 			for k, p := range fr.block.Preds {
@@ -672,6 +689,13 @@ func (x *Exec) visit(fr *frame, instr ssa.Instruction) cont {
 		x.store(c, x.get(fr, in.Val))
 	case *ssa.If:
 		cond := x.get(fr, in.Cond).(*Term)
+		if !cond.IsConst() {
+			if join, ok := x.tryIfConvert(fr, in, cond); ok {
+				fr.prev, fr.block = nil, join
+				fr.skipPhis = true
+				return kJump
+			}
+		}
 		succ := 1
 		if x.branch(cond) {
 			succ = 0
